@@ -77,6 +77,16 @@ def run(payload):
                 if abs(g2.integral - amount) > 1e-9 * amount or not np.allclose(g1.data, g2.data, atol=1e-10):
                     fails.append({"id": "insert_compiled", "grid": repr(grid), "point": pt.tolist(), "amount": amount, "integral": float(g2.integral),
                                   "max_diff_to_interpreted": float(np.max(np.abs(g1.data - g2.data)))})
+                # the same inserter on the padded array, at a point whose support cells are all valid cells
+                pin = rng.uniform(blo + 0.5 * grid.discretization, bhi - 0.5 * grid.discretization) if all(n >= 2 for n in grid.shape) else None
+                if pin is not None:
+                    g3 = ScalarField(grid, 0.0)
+                    get_backend("numba").make_inserter(grid, with_ghost_cells=True)(g3._data_full, pin, amount)
+                    g4 = ScalarField(grid, 0.0)
+                    g4.insert(pin, amount)
+                    cases += 1
+                    if abs(g3.integral - amount) > 1e-9 * amount or not np.allclose(g3.data, g4.data, atol=1e-10):
+                        fails.append({"id": "insert_compiled_on_padded_array", "grid": repr(grid), "point": pin.tolist(), "amount": amount, "integral": float(g3.integral)})
     return {"ok": True, "cases": cases, "failures": fails[:6]}
 
 
